@@ -40,6 +40,9 @@ var c18Programs = []string{
 	`<%= 1 + "a" %>`,
 	`<% let z = 3 ; z = z + 1 ; %><%= z %>`,
 	`<%= xs [ 0 ] + xs [ 1 ] * 2 - 1 %>`,
+	`<% let g = fn ( a ) { return a + 1 } %><%= g ( 1 ) + 1 %>|<%= g ( 2 ) == 3 %>|<%= if ( g ( 0 ) == 1 ) { %>y<% } %>`,
+	`<% let g = fn ( a ) { let t = a * 2 return t } %><%= g ( 2 ) * g ( 3 ) %>`,
+	`<%= for ( v ) in xs { let w = v * 2 %><%= w + 1 %>,<% } %>`,
 }
 
 var c18Gaps = []string{"\t", "\n", "\r\n", "  ", " # c\n", ""}
@@ -106,6 +109,35 @@ func c18AllGaps(parts []c18Part) []c18Gap {
 		}
 	}
 	return gs
+}
+
+// c18BlockBoundaries: gaps right after a block's opening brace and right before its closing brace.
+func c18BlockBoundaries(parts []c18Part) []c18Gap {
+	var out []c18Gap
+	var stack []bool // true = block brace, false = hash brace
+	prev := ""
+	for pi, p := range parts {
+		for ti, tok := range p.tokens {
+			switch tok {
+			case "{":
+				isBlock := prev == ")" || prev == "else"
+				stack = append(stack, isBlock)
+				if isBlock && ti+1 < len(p.tokens) && p.tokens[ti+1] != "%>" {
+					out = append(out, c18Gap{pi, ti})
+				}
+			case "}":
+				if len(stack) > 0 {
+					isBlock := stack[len(stack)-1]
+					stack = stack[:len(stack)-1]
+					if isBlock && ti > 0 && p.tokens[ti-1] != "<%" {
+						out = append(out, c18Gap{pi, ti - 1})
+					}
+				}
+			}
+			prev = tok
+		}
+	}
+	return out
 }
 
 func c18Build(parts []c18Part, sub map[c18Gap]string) string {
@@ -194,12 +226,12 @@ func init() {
 			return s
 		},
 		Run:  c18Run,
-		Rule: "(gap) 25 programs covering every construct as token lists: every single gap between adjacent tokens of a code tag replaced by each of {tab, newline, CRLF, two spaces, ' # c\\n' line comment, and the empty string where gluing cannot change the tokens ('-' and '.' adjacent to letters/digits are never glued)}; all pairs of gaps in the thorough tier. (split) every sequence of <=3 (4 thorough) statements from 10 (let, assignment, if, if/else, for, fn literal, call, helper with block, …) x every way of cutting the sequence into <% %> tags (including a statement directly after the closing brace of if/for/fn/helper block in the same tag) x a comment tag or a # line comment inserted at each statement boundary. Oracle: output identical to the canonical layout's (one statement per tag, single spaces); errors identical after replacing 'line N:'. Non-trivial: all re-layouts.",
+		Rule: "(gap) 28 programs covering every construct as token lists: every single gap between adjacent tokens of a code tag replaced by each of {tab, newline, CRLF, two spaces, ' # c\\n' line comment, and the empty string where gluing cannot change the tokens ('-' and '.' adjacent to letters/digits are never glued)}; all pairs of gaps; a comment tag / line-comment tag spliced in at every statement boundary inside blocks. (split) every sequence of <=3 (4 thorough) statements from 10 (let, assignment, if, if/else, for, fn literal, call, helper with block, …) x every way of cutting the sequence into <% %> tags (including a statement directly after the closing brace of if/for/fn/helper block in the same tag) x a comment tag or a # line comment inserted at each statement boundary. Oracle: output identical to the canonical layout's (one statement per tag, single spaces); errors identical after replacing 'line N:'. Non-trivial: all re-layouts.",
 		Bound: func(th bool) string {
 			if th {
 				return "gap deviations <=2; statement sequences <=4"
 			}
-			return "gap deviations <=1; statement sequences <=3"
+			return "gap deviations <=2; statement sequences <=3"
 		},
 	})
 }
@@ -234,13 +266,19 @@ func c18Run(t *engine.T, shard string) {
 		for gi, g := range gaps {
 			for _, a := range alts(g) {
 				c18Same(t, fmt.Sprintf("gap1 prog=%d gap=%d alt=%q", idx, gi, a), canonical, c18Build(parts, map[c18Gap]string{g: a}), true)
-				if t.Thorough {
+				{
 					for gj := gi + 1; gj < len(gaps); gj++ {
 						for _, b := range alts(gaps[gj]) {
 							c18Same(t, fmt.Sprintf("gap2 prog=%d gaps=%d,%d", idx, gi, gj), canonical, c18Build(parts, map[c18Gap]string{g: a, gaps[gj]: b}), true)
 						}
 					}
 				}
+			}
+		}
+		// a comment tag (close, comment, reopen) at every statement boundary inside blocks
+		for gi, g := range c18BlockBoundaries(parts) {
+			for _, ins := range []string{" %><%# c %><% ", " %><%# c\n d %><% ", " %><% # lc\n %><% "} {
+				c18Same(t, fmt.Sprintf("ctag prog=%d boundary=%d", idx, gi), canonical, c18Build(parts, map[c18Gap]string{g: ins}), true)
 			}
 		}
 		// all gaps at once
